@@ -328,6 +328,35 @@ func CorpusWithHooks() []*Scenario {
 	return out
 }
 
+// TypeCorpus: an inbox POST, an outbox POST and a Send for every activity type of the shipped
+// vocabularies that the library has NO default handling for (the intransitive ones - which lack the
+// 'object' accessors - included), so that every type passes through the handlers at least once.
+func TypeCorpus() []*Scenario {
+	var out []*Scenario
+	for _, t := range []string{"Activity", "IntransitiveActivity", "Arrive", "Travel", "Question", "Dislike", "Flag", "Ignore", "Invite", "Join", "Leave", "Listen", "Move", "Offer", "Read",
+		"TentativeAccept", "TentativeReject", "View", "Push"} {
+		intransitive := t == "IntransitiveActivity" || t == "Arrive" || t == "Travel" || t == "Question"
+		mk := func(id, actor string) M {
+			d := Doc(t, id, "actor", actor, "to", L{Col1, Carol}, "target", Col1, "origin", RCol, "inReplyTo", Note1)
+			if t == "Push" {
+				d["@context"] = L{AS, "https://forgefed.peers.community/ns"}
+			}
+			if !intransitive {
+				d["object"] = Note1
+			}
+			if t == "Question" {
+				d["oneOf"] = L{Emb("Note", "", "name", "a"), Emb("Note", "", "name", "b")}
+			}
+			return d
+		}
+		out = append(out,
+			&Scenario{Name: "types/in-" + t, Kind: ap.Both, Entry: "PostInbox", URL: inbox(Alice), Body: mk(RAct, Carol)},
+			&Scenario{Name: "types/out-" + t, Kind: ap.Both, Entry: "PostOutbox", URL: outbox(Alice), Body: mk("", Alice)},
+			&Scenario{Name: "types/send-" + t, Kind: ap.FederatingOnly, Entry: "Send", URL: outbox(Alice), Body: mk("", Alice)})
+	}
+	return out
+}
+
 // HistoryCorpus: every POST scenario of the corpus again, started from the state an EARLIER request of
 // the same kind left behind (the same body under another activity id; for the outbox simply posted
 // twice): a second Follow from a peer who already follows, a second Like of a liked object, ...
